@@ -1241,18 +1241,34 @@ def ex_batch_replace(H: Any, S: Snap, a: dict[str, Any]) -> Exp:
     if len(set(idx)) != len(idx):
         raise Invalid('two points address the same operation')
     sub: dict[int, tuple[Any, Any]] = {}
+    extended = False
     for i, pt, op in zip(idx, pts, ops):
         chk_op(S, op)
         if int(pt[1]) not in op.location:
             raise Invalid("point's qudit not in the operation's location")
-        if not set(op.location) <= set(S.ops[i].loc):
-            raise Unspecified('replacement touches qudits outside the old location')
+        for q in op.location:
+            # qudits outside the old location: in place only if nothing is
+            # concurrent there (otherwise the relative order is left open)
+            if q not in S.ops[i].loc and S.cells[S.ops[i].cycle][q] >= 0:
+                raise Unspecified('replacement touches an occupied qudit outside the old location')
+            if q not in S.ops[i].loc:
+                extended = True
         sub[i] = _new_ent(op.gate, op.location, op.params)
+    for c in {S.ops[i].cycle for i in idx}:
+        used: list[int] = []
+        for i in S.cycle_ops(c):
+            used += list(sub[i][0][1]) if i in sub else list(S.ops[i].loc)
+        if len(used) != len(set(used)):
+            raise Unspecified('replacements collide inside one cycle')
     lm = [
         [sub[i] if i in sub else (S.ops[i].desc, S.ops[i].obj) for i in S.cycle_ops(c)]
         for c in range(S.ncyc)
     ]
     e = Exp(S.radixes, lm)
+    # a replacement reaching onto a qudit that is idle in its cycle has its
+    # own failure mechanism (an earlier replacement of the batch may have
+    # been merged into that cycle): keep it apart from index compensation
+    e.context = 'location_extended' if extended else ''
     e.ret = _ret_none
     return e
 
@@ -1998,6 +2014,14 @@ def _step(H: History, call: dict[str, Any]) -> bool:
         status = 'unspecified'
     except Unmat:
         status = 'unspecified'
+    except Exception as e:  # noqa
+        # the model reads the circuit through the public API; if that read
+        # itself fails inside bqskit the state is already torn (C05 reports
+        # it from the view checks) -- anything else is a harness bug
+        if not core.repo_frames(e):
+            raise
+        H.cnt['model_read_failed:%s:%s' % (name, type(e).__name__)] += 1
+        status = 'unspecified'
     H.cnt['model_' + status] += 1
 
     # unitary bookkeeping before the call
@@ -2049,6 +2073,9 @@ def _step(H: History, call: dict[str, Any]) -> bool:
             heavy=H.step_no % 2 == 0 or name in STRUCTURAL or H.every_step,
         )
         H.cnt['invariant_evals'] += 1
+    for which, detail in [v for v in vbad if v[0] == 'count_op_circuitgate'][:1]:
+        _witness(H, 'C05', 'view:count_op:circuitgate_prefix_equality', name, S, view=which, detail=detail, state_after_call=A.render(), status=status)
+    vbad = [v for v in vbad if v[0] != 'count_op_circuitgate']
     if vbad and err is not None:
         # one finding: a rejected call left the views torn
         _witness(H, 'C05', 'views_broken_after_rejected_call:%s' % name, name, S, views=sorted({v for v, _ in vbad}), detail=vbad[0][1], state_after_call=A.render(), status=status, error=err)
@@ -2259,8 +2286,8 @@ History.step = _step  # type: ignore
 History.drain = _drain  # type: ignore
 
 
-class _Timeout(Exception):
-    pass
+class _Timeout(BaseException):
+    """BaseException: must not be swallowed by the per-check `except Exception`."""
 
 
 def _alarm(signum: int, frame: Any) -> None:
@@ -2269,7 +2296,7 @@ def _alarm(signum: int, frame: Any) -> None:
 
 def run_calls(
     init: dict[str, Any], source: Any, flags: dict[str, Any] | None = None,
-    limit_s: int = 60,
+    limit_s: int = 20,
 ) -> History:
     """Run a history. `source` is a list of calls or a callable
     (history) -> call | None that draws the next call from the state."""
@@ -2277,8 +2304,9 @@ def run_calls(
     H.status = 'ok'  # type: ignore
     old = None
     try:
-        old = signal.signal(signal.SIGALRM, _alarm)
-        signal.alarm(limit_s)
+        # CPU-time watchdog (ITIMER_VIRTUAL): independent of machine load
+        old = signal.signal(signal.SIGVTALRM, _alarm)
+        signal.setitimer(signal.ITIMER_VIRTUAL, float(limit_s))
     except ValueError:
         old = None
     try:
@@ -2303,8 +2331,8 @@ def run_calls(
         )
     finally:
         if old is not None:
-            signal.alarm(0)
-            signal.signal(signal.SIGALRM, old)
+            signal.setitimer(signal.ITIMER_VIRTUAL, 0.0)
+            signal.signal(signal.SIGVTALRM, old)
     if H.alias_used and H.wit and not (flags or {}).get('_noalias'):
         # does the finding need the re-used Operation objects? Re-run the
         # same calls with fresh objects; only what disappears is tagged.
@@ -2615,14 +2643,26 @@ class Gen:
         elif m == 'batch_replace':
             k = int(rng.integers(1, 4))
             idx = list(rng.permutation(len(S.ops)))[:k] if S.ops else []
+            alone = [i for i in range(len(S.ops)) if len(S.cycle_ops(S.ops[i].cycle)) == 1]
+            if alone and rng.random() < 0.6:
+                # an operation alone in its cycle: replacing it with another
+                # location set makes the cycle vanish / reappear mid-batch
+                first = alone[int(rng.integers(len(alone)))]
+                idx = [first] + [i for i in idx if int(i) != first][:k - 1]
             pts, ops = [], []
             for i in idx:
                 r = S.ops[int(i)]
                 sub = list(r.loc)
-                if len(sub) > 1 and rng.random() < 0.3:
+                x = rng.random()
+                if len(sub) > 1 and x < 0.35:
                     sub = sub[:-1]
+                elif x < 0.6 and len(sub) < 3:
+                    free = [q for q in range(n) if S.cells[r.cycle][q] < 0]
+                    if free:
+                        sub = sub + [free[int(rng.integers(len(free)))]]
                 loc = [int(q) for q in rng.permutation(sub)]
-                pts.append([r.cycle, loc[int(rng.integers(len(loc)))]])
+                inter = [q for q in loc if q in r.loc]
+                pts.append([r.cycle, inter[int(rng.integers(len(inter)))]])
                 g = rand_gate_recipe(rng, [S.radixes[q] for q in loc])
                 ops.append({'g': g, 'loc': loc, 'p': rand_params(rng, build_gate(g).num_params)})
             if bad and pts:
@@ -2708,7 +2748,9 @@ def base_kind(k: str) -> str:
 
 
 def fires(init: dict[str, Any], calls: list[dict[str, Any]], kind: str, flags: dict[str, Any]) -> dict[str, Any] | None:
-    H = run_calls(init, calls, dict(flags, every_step=True), limit_s=30)
+    H = run_calls(init, calls, dict(flags, every_step=True), limit_s=5)
+    if H.status == 'timeout':  # type: ignore
+        raise _Timeout()
     for w in H.wit:
         if base_kind(w['kind']) == base_kind(kind):
             return w
@@ -2723,6 +2765,7 @@ def shrink(
     Returns (calls, witness of the shrunk history, number of re-executions)."""
     calls = [c for c in calls if c.get('m') != 'drain']
     runs = 0
+    timeouts = 0
     best = None
     n = 2
     while len(calls) >= 2 and runs < max_runs:
@@ -2733,7 +2776,13 @@ def shrink(
             if not cand:
                 continue
             runs += 1
-            w = fires(init, cand, kind, flags)
+            try:
+                w = fires(init, cand, kind, flags)
+            except _Timeout:
+                timeouts += 1
+                if timeouts >= 2:
+                    return calls, best, runs
+                w = None
             if w is not None:
                 calls, best = cand, w
                 n = max(n - 1, 2)
@@ -2905,6 +2954,7 @@ FAMILIES: dict[str, dict[str, Any]] = {
             {'m': 'batch_pop', 'a': {'pts': [[0, 0], [1, 1], [2, 2]]}},
             {'m': 'batch_replace', 'a': {'pts': [[0, 0], [0, 1]], 'ops': [_g('SGate', [0]), _g('ZGate', [1])]}},
             {'m': 'batch_replace', 'a': {'pts': [[1, 1], [0, 2]], 'ops': [_g('YGate', [1]), _g('SXGate', [2])]}},
+            {'m': 'batch_replace', 'a': {'pts': [[1, 0], [2, 1]], 'ops': [_g('SGate', [0]), _g('ZGate', [1])]}},
             {'m': 'batch_unfold', 'a': {'pts': [[0, 0], [0, 2]]}}, {'m': 'batch_unfold', 'a': {'pts': [[0, 1]]}},
             {'m': 'replace_with_circuit', 'a': {'pt': [0, 0], 'sub': _SUB1, 'acg': False}},
             {'m': 'replace_with_circuit', 'a': {'pt': [1, 1], 'sub': _SUB2, 'acg': False}},
@@ -2968,7 +3018,10 @@ def random_edited_circuit(
         qudit_edits=qudit_edits, max_ops=max_ops, exclude=exclude,
     )
     H = History({'radixes': rad}, order=False, views=False, unitary=False, drain=False)
-    for _ in range(n_calls):
+    done = 0
+    for _ in range(n_calls * 4):
+        if done >= n_calls:
+            break
         call = g(H)
         if call is None:
             break
@@ -2999,6 +3052,7 @@ def random_edited_circuit(
             continue
         H.circ, H.snap = work, S
         H.calls.append(call)
+        done += 1
     if not blocks and any(isinstance(r.obj.gate, CircuitGate) for r in H.snap.ops):
         H.circ.unfold_all()
     return H.circ
